@@ -9,6 +9,7 @@ import Otel.C01.Lemmas3
 import Otel.C01.Progress
 import Otel.C01.Spec
 import Otel.C01.HistorySim
+import Otel.C01.Stuck
 namespace Otel.C01
 
 variable {cap maxB : Nat} {blocking : Bool}
@@ -292,6 +293,87 @@ theorem bsp_shutdown_late_never_stuck (hpos : 1 ≤ maxB) (s : St) (h : Reachabl
   let hi := inv_reachable cap maxB blocking hpos s h
   shutdown_progress_late s hi.c hi.l c hc hret
 
+/-! ### known finding F42 (property C15 "no call blocks forever"): a producer stuck on the full queue -/
+
+/-- F42 (a) — stuck for ever. When the worker has stopped receiving (final export or exited), the queue is full and
+a ForceFlush sits at its marker send (`StuckFF`) or, in blocking mode, an `OnEnd` sits at its send (`StuckEnd`):
+that send is disabled, and it is still so after every run of the model — every interleaving of every thread — that
+does not cancel that ForceFlush's context. Context expiry: a ForceFlush context that ends is the label `ffCancel`
+(the call then returns ctx.Err(): with `context.Background()` it never happens); `OnEnd` sends with
+`context.TODO()`, no label ever releases it. -/
+theorem bsp_stuck_producer_forever (s s' : St) (ls : List Lbl) (hrun : run s ls = some s') :
+    (∀ fid, StuckFF s fid = true → Lbl.ffCancel fid ∉ ls →
+      StuckFF s' fid = true ∧ step s' (.ffEnqueue fid) = none) ∧
+    (∀ id, StuckEnd s id = true → StuckEnd s' id = true ∧ step s' (.send id) = none) := by
+  constructor
+  · intro fid h hl
+    have := stuckFF_run s s' fid ls hrun hl h
+    exact ⟨this, stuckFF_disabled s' fid this⟩
+  · intro id h
+    have := stuckEnd_run s s' id ls hrun h
+    exact ⟨this, stuckEnd_disabled s' id this⟩
+
+/-- F42 (b) — tightness: it only happens after Shutdown has made the worker stop receiving. In every reachable state
+in which a producer sits at its send with the queue full — a ForceFlush at its marker send, or in blocking mode an
+`OnEnd` at its send — either the F42 predicate holds for that very producer, or the worker has not stopped
+receiving and some finite run of worker-side steps (the worker's own steps and the return of the exporter call that
+holds the mutex; the exporter is assumed to return) frees a slot, after which that producer's send is enabled. So a
+producer for which no continuation ever enables its send is stuck in the sense of `StuckProducer_applies`.
+Fairness towards the worker (that it does get to run) is not claimed. -/
+theorem bsp_blocked_producer_served_or_stuck (hpos : 1 ≤ maxB) (s : St) (h : Reachable cap maxB blocking s)
+    (hfull : s.cap ≤ s.queue.length) (hcap : 1 ≤ s.cap) :
+    (∀ fid, hasPh fid .checked s.ffs = true →
+      StuckFF s fid = true ∨
+      ∃ ls s', (∀ l ∈ ls, l.workerSide = true) ∧ run s ls = some s' ∧ (step s' (.ffEnqueue fid)).isSome = true) ∧
+    (∀ id, id ∈ s.inflight → s.blocking = true →
+      StuckEnd s id = true ∨
+      ∃ ls s', (∀ l ∈ ls, l.workerSide = true) ∧ run s ls = some s' ∧ (step s' (.send id)).isSome = true) := by
+  have hQ := invQ_reachable h
+  unfold InvQ at hQ
+  have hne : s.queue ≠ [] := by
+    intro e; rw [e] at hfull; simp at hfull; omega
+  constructor
+  · intro fid hp
+    cases hd : workerDone s with
+    | true => left; simp [StuckFF, hd, hfull, hp]
+    | false =>
+      right
+      obtain ⟨ls, s', hall, hrun, hlt⟩ := worker_serves hpos s h hd hne
+      have hk := workerSide_run_keeps s s' ls fid hrun hall
+      refine ⟨ls, s', hall, hrun, ?_⟩
+      have hp' := hk.2.2.2 hp
+      have hlen : s'.queue.length < s'.cap := by rw [hk.1]; omega
+      simp [step, hp', hlen]
+  · intro id hid hbl
+    cases hd : workerDone s with
+    | true => left; simp [StuckEnd, hd, hfull, hbl, hid]
+    | false =>
+      right
+      obtain ⟨ls, s', hall, hrun, hlt⟩ := worker_serves hpos s h hd hne
+      have hk := workerSide_run_keeps s s' ls 0 hrun hall
+      refine ⟨ls, s', hall, hrun, ?_⟩
+      have hid' : id ∈ s'.inflight := by rw [hk.2.2.1]; exact hid
+      have hlen : s'.queue.length < s'.cap := by rw [hk.1]; omega
+      simp [step, hid', hlen]
+
+/-- the schedules of F42: a ForceFlush (resp., in blocking mode, a second `OnEnd`) passes its `stopped` check, a
+Shutdown runs to completion, the `OnEnd` of span 1 — which had passed its check before — fills the queue of capacity 1;
+the ForceFlush's marker send (resp. the second `OnEnd`'s send) can never happen. -/
+def stuckFFSchedule : List Lbl :=
+  [.accept 1, .ffCall 1, .ffCheck 1, .sdCall, .sdStore, .sdClose, .wStop, .wDrainEmpty, .wExportStart,
+   .sdExporterShutdown, .sdReturnOk, .send 1]
+
+def stuckEndSchedule : List Lbl :=
+  [.accept 1, .accept 2, .sdCall, .sdStore, .sdClose, .wStop, .wDrainEmpty, .wExportStart,
+   .sdExporterShutdown, .sdReturnOk, .send 1]
+
+theorem bsp_stuck_producer_witness :
+    (∃ s, run (init 1 1 false) stuckFFSchedule = some s ∧ StuckFF s 1 = true ∧ StuckProducer_applies s = true ∧
+      s.sdRetOk = true ∧ s.ffs.any (fun f => f.fid == 1 && f.ph == .checked) = true) ∧
+    (∃ s, run (init 1 1 true) stuckEndSchedule = some s ∧ StuckEnd s 2 = true ∧ StuckProducer_applies s = true ∧
+      s.sdRetOk = true ∧ s.inflight = [2]) := by
+  refine ⟨⟨_, rfl, ?_⟩, ⟨_, rfl, ?_⟩⟩ <;> decide
+
 /-- F22 exclusion predicate: this ForceFlush returned nil through one of the two early exits taken when a
 Shutdown is in progress (`stopped` already set, or `stopCh` winning the select). -/
 def F22_applies (f : FF) : Bool := f.ph == .retEarly
@@ -473,6 +555,50 @@ theorem hist_f41_never_hides_first_call_loss (bl : Bool) (d : Nat) (c : Spec.Sca
   intro hin
   subst h1
   simp [Spec.scanStep, hin, h2, h3, h4]
+
+/-- hangs at the level of histories — a history of the model contains no hang event (a call that does not return
+simply has no return event): the oracle's judgement of hung calls (`Spec.histHangs`, the F42 classification of the
+hist leg) reports nothing on it. That a producer CAN stay pending for ever in the model is
+`bsp_stuck_producer_forever` / `bsp_stuck_producer_witness`. -/
+theorem bsp_model_history_no_hang (s : St) (h : List Spec.Ev) (hr : ReachableH cap maxB blocking s h)
+    (bl : Bool) : Spec.histHangs bl h = ([], false) := by
+  have hnil : ((List.range h.length).filterMap fun i => h[i]?.bind (Spec.judgeHang bl (h.take i))) = [] := by
+    rw [List.filterMap_eq_nil_iff]
+    intro i _
+    cases hi : h[i]? with
+    | none => rfl
+    | some ev => exact reachableH_no_hangs hr bl (h.take i) ev (List.mem_of_getElem? hi)
+  simp [Spec.histHangs, hnil]
+
+/-- non-vacuity for the hang classification. (1) a hung ForceFlush with the exporter shut down and the queue seen full
+is F42; before the exporter's Shutdown, or with the queue not full, it is the failure "hang"; (2) a hung End with the
+same pattern is F42 only in blocking mode; (3) a hung Shutdown is always a failure; (4) the history recorded on the
+real code before the harness said who hung (`VERIF_SEED=101`, queue capacity 1: ForceFlush 2 was called before the
+first Shutdown and is the only call outstanding when the HANG is stamped after the drain; the queue was occupied by
+the marker of another ForceFlush) is F42, and the same history with the hang stamped before the exporter's Shutdown,
+or with a Shutdown call outstanding, is a failure. -/
+example :
+    Spec.histHangs false [.ffCalled 1, .sdCalled, .expShutdownStart, .expShutdownEnd, .sdReturned true,
+      .ended 1000, .ended 2000, .hangFF 1 true] = ([], true) ∧
+    Spec.histHangs false [.ffCalled 1, .ended 1000, .ended 2000, .hangFF 1 true] = (["hang"], false) ∧
+    Spec.histHangs false [.ffCalled 1, .sdCalled, .expShutdownStart, .expShutdownEnd, .sdReturned true,
+      .ended 1000, .hangFF 1 false] = (["hang"], false) ∧
+    Spec.histHangs false [.sdCalled, .expShutdownStart, .expShutdownEnd, .sdReturned true, .ended 1,
+      .hangEnd 2 true] = (["hang"], false) ∧
+    Spec.histHangs true [.sdCalled, .expShutdownStart, .expShutdownEnd, .sdReturned true, .ended 1,
+      .hangEnd 2 true] = ([], true) ∧
+    Spec.histHangs false [.sdCalled, .expShutdownStart, .expShutdownEnd, .hangSd] = (["hang"], false) ∧
+    Spec.histHangs false [.ffCalled 1, .ffCalled 0, .ffCalled 2, .sdCalled, .ffReturned 1 true, .ended 0,
+      .ffReturned 0 true, .exportStart [2000, 1000, 0], .exportEnd, .expShutdownStart, .expShutdownEnd,
+      .sdReturned true, .sdCalled, .sdReturned true, .ended 1000, .ended 2000, .hang, .sdCalled, .sdReturned true,
+      .ffReturned 2 true] = ([], true) ∧
+    Spec.histHangs false [.ffCalled 2, .sdCalled, .hang, .expShutdownStart, .expShutdownEnd, .sdReturned true]
+      = (["hang"], false) ∧
+    Spec.histHangs false [.ffCalled 2, .sdCalled, .expShutdownStart, .expShutdownEnd, .hang, .sdReturned true]
+      = (["hang"], false) ∧
+    Spec.histHangs false [.sdCalled, .expShutdownStart, .expShutdownEnd, .sdReturned true, .ffCalled 2, .hang]
+      = (["hang"], false) := by
+  decide
 
 /-- non-vacuity for F41: the history of `lateEndSchedule` — the second Shutdown call is judged with its own `pre`
 set `[1]`, span 1 is never exported: the oracle raises its F41 flag and reports no violated clause; without the
